@@ -30,7 +30,7 @@ func (s *sess) asNobody(files []string, fn func()) bool {
 		}
 	}
 	dropped := false
-	if os.Geteuid() == 0 {
+	if os.Geteuid() == 0 && os.Getenv("WTDRIVER_NO_UIDDROP") == "" { // (the variable: a way to exercise the fallback)
 		// (the scratch directories on the way stay searchable: several driver processes share the upper one, and
 		// taking the bits away again under a neighbour that has just dropped its uid would fail its command)
 		for _, d := range []string{s.root, filepath.Dir(s.root)} {
